@@ -28,6 +28,8 @@ def run(check):
     check.run_rule('C07.R2', lambda c: rule_source_handling(c, 'C07.R2'))
     check.run_rule('C07.R3', lambda c: rule_recursion_guard(c, 'C07.R3'))
     check.run_rule('C07.R4', lambda c: rule_probe_discipline(c, 'C07.R4'))
+    from ..rules_escape import rule_implicit_attribute_errors
+    check.run_rule('C07.R4b', lambda c: rule_implicit_attribute_errors(c, 'C07.R4'))
     check.run_rule('C07.R5', lambda c: rule_sphinx(c, 'C07.R5'))
     from ..rules_escape import rule_sphinx_unchanged_pair
     from ..rules_visitor import rule_scope_chain_lookups
